@@ -5,6 +5,7 @@
 package main
 
 import (
+	"runtime/debug"
 	"bufio"
 	"fmt"
 	"os"
@@ -54,6 +55,9 @@ func safeStep(e engine, ws []string) (res string) {
 	defer func() {
 		if r := recover(); r != nil {
 			res = "PANIC " + panicClass(fmt.Sprint(r))
+			if os.Getenv("VERIF_STACK") != "" {
+				fmt.Fprintln(os.Stderr, string(debug.Stack()))
+			}
 		}
 	}()
 	return e.step(ws)
